@@ -48,6 +48,9 @@ def fault_cases():
         cases.append(("matched-twice-slashes/" + pre, base + pref, ["cfg//a.yaml", "cfg/a.yaml"], "out/gen.go"))
         cases.append(("matched-twice-dotdot-glob/" + pre, base + pref, ["cfg/../cfg/a.yaml", "cfg/*.yaml"], "out/gen.go"))
         cases.append(("matched-twice-unclean-both/" + pre, base + pref, ["./cfg/a.yaml", "cfg/./a.yaml"], "out/gen.go"))
+        cases.append(("same-pattern-twice/" + pre, base + pref, ["cfg/a.yaml", "cfg/a.yaml"], "out/gen.go"))
+        cases.append(("same-glob-twice/" + pre, base + pref, ["cfg/*.yaml", "cfg/*.yaml"], "out/gen.go"))
+        cases.append(("same-pattern-thrice-interleaved/" + pre, base + pref + [{"path": "cfg/b.yaml", "content": "parameters: {z: 2}\n"}], ["cfg/a.yaml", "cfg/b.yaml", "cfg/a.yaml"], "out/gen.go"))
         cases.append(("matched-twice-nonascii/" + pre, [{"path": "cfg/\u00e9a.yaml", "content": VALID}] + pref, ["cfg/\u00e9*.yaml", "cfg/\u00e9a.yaml", "cfg/\u4e2d*.yaml"], "out/gen.go"))
         cases.append(("matched-twice-punct/" + pre, [{"path": "cfg/a'b c.yaml", "content": VALID}] + pref, ["cfg/a'b c.yaml", "cfg/a'b*.yaml", "cfg/\\a'b c.yaml"], "out/gen.go"))
         cases.append(("one-ok-one-missing-pattern/" + pre, base + pref, ["cfg/*.yaml", "nothing/*.yaml"], "out/gen.go"))
